@@ -2,9 +2,14 @@ import OW.Kernels.Basic
 import OW.Util.FindRoot
 /- models/routing/storage_routing.go — storageRouting / calcOutflow / runRouting, line by line.
 
-Repair modelled (fixes/storage_routing_zero_outflow.diff): the two exits of `calcOutflow` that set `outflow = 0`
-(`delta >= massBalanceLimit` at `minQI`, and `maxQI <= minQI`) report the water-balance storage
-`max(prevStorage + (inflow+lateral-netEvaporationFlux)*duration, 0)` instead of `SIndex(minQI)`.
+Repairs modelled:
+* fixes/storage_routing_zero_outflow.diff: the two exits of `calcOutflow` that set `outflow = 0`
+  (`delta >= massBalanceLimit` at `minQI`, and `maxQI <= minQI`) report the water-balance storage
+  `max(prevStorage + (inflow+lateral-netEvaporationFlux)*duration, 0)` instead of `SIndex(minQI)`;
+* fixes/storage_routing_full_drain_lateral.diff: the `delta < massBalanceLimit` at `maxQI` exit drains the lateral
+  inflow as well (`maxQI` is computed on that assumption);
+* fixes/storage_routing_convergence_limit.diff: `convergenceLimit = 0` (FindRoot's exit on convergence in `x` returned
+  index flows whose mass-balance residual was far above `massBalanceLimit` at low flows).
 
 Every exit of `calcOutflow` carries a branch tag:
   zero-at-minqi | balanced-at-minqi | zero-maxqi-le-minqi | full-drain-at-maxqi | prev-qi | mid-qi | root -/
@@ -12,7 +17,8 @@ namespace OW.Kernels.StorageRouting
 open OW
 
 def massBalanceLimit {α} [Num α] : α := 1e-3
-def convergenceLimit {α} [Num α] : α := 1e-8
+/-- REPAIRED (fixes/storage_routing_convergence_limit.diff): was `1e-8`; `0` disables FindRoot's exit on convergence in `x` -/
+def convergenceLimit {α} [Num α] : α := 0.0
 def maxIterations : Nat := 20
 
 /-- locals fixed by the prologue of `storageRouting` -/
@@ -126,7 +132,8 @@ def calcOutflow {α} [Num α] (inflow lateral bias prevQi _prevOutflow prevStora
     return ⟨minQI, 0.0, newStorage c, "zero-maxqi-le-minqi"⟩
   let r ← runRouting c maxQI
   if r.massBalance < massBalanceLimit then
-    let outflow := Num.gmax 0.0 (initialFluxMax - nef)
+    -- REPAIRED (fixes/storage_routing_full_drain_lateral.diff): `+ lateral` (the maximum index flow drains the lateral too)
+    let outflow := Num.gmax 0.0 (initialFluxMax - nef + lateral)
     let storage := Num.gmax (prevStorage + (inflow + lateral - nef - outflow) * duration) 0.0
     return ⟨maxQI, outflow, storage, "full-drain-at-maxqi"⟩
   let reset : Bool := decide (prevQi ≤ minQI) || decide (maxQI ≤ prevQi)
